@@ -37,15 +37,19 @@ MANIFEST = dict(
           "back through recording constructors mirroring the real registrations (same config type and default func, taken from the registry), "
           "and a sample also with the real constructors; TLC evaluates the property invariants on every observed result and compares outcome "
           "and each leaf with the model. Right level: the statement quantifies over all config paths and field positions; tests decode toy structs."),
-    note=("One mutation at a time on three base configurations; values are one representative per leaf (one non-default value, one wrong-typed, "
+    note=("Also: value classes that follow from the kind of a leaf (fractional / out-of-range number into an integer option, negative into an "
+          "unsigned one, integral float accepted), every value class also delivered through a placeholder, the moment an error is reported "
+          "(load | first call of the factory of a lazily decoded section: rps, grpc guns) pinned, and the input channel of the CLI reader x file "
+          "syntax (file .yaml/.yml/no extension/.json/.toml, stdin, ./load.yaml, ./load.json, ./config/load.yaml with decoys in the search "
+          "directories) as a dimension of the cli path. One mutation at a time on three base configurations; values are one representative per leaf (one non-default value, one wrong-typed, "
           "the listed out-of-range values); effective defaults applied downstream of decoding (max-idle-conns-per-host, fallback-delay, "
           "client-number, grpc timeouts) are pinned as the decoded zero value; scenario-file contents (HCL/YAML) belong to C16. Trusted: the "
           "recording driver incl. its reflection over the registry, the schema transcription, TLC."),
 )
 
 NEGS = ["ConfigDecode_neg_unused.cfg", "ConfigDecode_neg_novalidate.cfg", "ConfigDecode_neg_weak.cfg",
-        "ConfigDecode_neg_unset.cfg", "ConfigDecode_neg_discard.cfg"]
-INVS = ["NoPanic", "Conforms", "TStrict", "TTyped", "TConstrained", "TPlaceholders", "TNoSpuriousError", "TValues"]
+        "ConfigDecode_neg_unset.cfg", "ConfigDecode_neg_discard.cfg", "ConfigDecode_neg_stdin.cfg"]
+INVS = ["NoPanic", "Conforms", "TStage", "TStrict", "TTyped", "TConstrained", "TPlaceholders", "TNoSpuriousError", "TValues"]
 
 
 def path_s(p):
@@ -73,10 +77,16 @@ def case_sig(row, variants):
         s += " value=%s" % c["src"]
     if c["kind"] == "phadv":
         s += " src=%s scenario=%d" % (c["src"], c["x"])
-    if c["kind"] == "range":
+    if c["kind"] in ("range", "phrange"):
         s += " class=%d" % c["i"]
     comp = component_of(c, variants)
-    return "%s comp=%s via=%s shape=%s reg=%s" % (s, comp, row["via"], row["shape"], row["reg"])
+    return "%s comp=%s via=%s shape=%s reg=%s%s" % (s, comp, row["via"], row["shape"], row["reg"], channel_of(row))
+
+
+def channel_of(row):
+    """' channel=stdin' ... for a cli run through another input channel than a .yaml file named on the command line."""
+    m = row.get("mvia", "")
+    return " channel=%s" % m[4:] if m.startswith("cli-") else ""
 
 
 def leaf_label(vname, p, variants):
@@ -123,7 +133,7 @@ def validate(v, obs_path, rows, variants, points_path, workers=8):
             # the failing input class is the wrong leaf; the mutation only matters when it is the mutated leaf itself
             sig = "inv=TValues %s base=%s via=%s reg=%s leaf=%s" % (
                 ("kind=%s src=%s" % (c["kind"], c["src"] or "-")) if own else "kind=any", c["base"], row["via"], row["reg"],
-                ",".join(labels)[:300])
+                ",".join(labels)[:300]) + channel_of(row)
             detail = " decoded: " + json.dumps({path_s(leaves[j]["p"]): row["got"][j] for j in bad})
         if sig in seen:
             continue
@@ -131,7 +141,7 @@ def validate(v, obs_path, rows, variants, points_path, workers=8):
         v.violation(sig, "case %s (variant %s, base %s) via %s/%s/%s: real decoding gives %s%s%s; violates %s of TraceConfigDecode" % (
             json.dumps({k: c[k] for k in ("kind", "p", "i", "src", "set", "x")}) + " " + json.dumps(row.get("_delta", {}).get("set", []))[:200], c["v"], c["base"], row["via"], row["shape"], row["reg"],
             row["out"], (" (%s)" % row["err"][:160]) if row["err"] else "", detail, inv),
-            replay_obj={"invariant": inv, "line": {k: row[k] for k in ("c", "via", "shape", "reg", "out", "got", "err")},
+            replay_obj={"invariant": inv, "line": {k: row[k] for k in ("c", "via", "mvia", "stage", "shape", "reg", "out", "got", "err")},
                         "delta": row.get("_delta"), "phval": row.get("_phval"), "adv": row.get("_adv")},
             replay_name="confdecode_%d_%s.json" % (ln, inv))
     return tr
@@ -150,7 +160,7 @@ def name_bad_leaves(rows, lines):
         return
     d = vlib.scratch()
     some = os.path.join(d, "rejected.ndjson")
-    vlib.write_ndjson(some, [{k: rows[ln - 1][k] for k in ("c", "via", "shape", "reg", "out", "got", "err")} for ln in lines])
+    vlib.write_ndjson(some, [{k: rows[ln - 1][k] for k in ("c", "via", "mvia", "stage", "shape", "reg", "out", "got", "err")} for ln in lines])
     r = vlib.tlc("TraceConfigDecode", "TraceConfigDecode_leaves.cfg", env={"VERIF_TRACE": some}, workers=1, heap="2g",
                  deadlock=False, timeout=900)
     for ln_ in r.out.splitlines():
@@ -302,6 +312,38 @@ def pairs_family(v, b, variants, variants_p, points_p, d, thorough):
     return out
 
 
+def run_driver_split(b, variants_p, cases, obs, stride, d, parts=4):
+    """The sequential family is executed by `parts` driver processes (each with its own scratch directory, environment and
+    property file), every process a contiguous share of the case list; the observations are concatenated in case order."""
+    n = (len(cases) + parts - 1) // parts
+    jobs, errs = [], []
+    for k in range(parts):
+        part = cases[k * n:(k + 1) * n]
+        if not part:
+            continue
+        pin, pout = os.path.join(d, "cases_part%d.ndjson" % k), os.path.join(d, "obs_part%d.ndjson" % k)
+        vlib.write_ndjson(pin, part)
+
+        def job(pin=pin, pout=pout):
+            try:
+                vlib.run_driver(b, ["confdecode", "-variants", variants_p, "-in", pin, "-out", pout,
+                                    "-cli-stride", str(stride), "-real-stride", str(stride),
+                                    "-channels-per-case", "0" if stride == 1 else "1"], timeout=1800)
+            except BaseException as ex:
+                errs.append(ex)
+        t = threading.Thread(target=job)
+        t.start()
+        jobs.append((t, pout))
+    for t, _ in jobs:
+        t.join()
+    if errs:
+        raise errs[0]
+    with open(obs, "w") as out:
+        for _, pout in jobs:
+            with open(pout) as f:
+                out.write(f.read())
+
+
 def run(tier, v):
     import time
     t0 = time.time()
@@ -346,11 +388,18 @@ def run(tier, v):
     vlib.log("design level started at %.1fs" % (time.time() - t0))
     if len(cases) != report["cases"]:
         raise vlib.MachineryError("case file has %d lines, TLC counted %d cases" % (len(cases), report["cases"]))
+    if not thorough:
+        # quick tier: of the value classes delivered through a placeholder all kind classes (x = 1) and every 3rd class of a documented
+        # constraint (rotating with VERIF_SEED) are executed; the design-level run covers all of them, the thorough tier executes all
+        n_all = len(cases)
+        cases = [c for i, c in enumerate(cases) if c["c"]["kind"] != "phrange" or c["c"]["x"] == 1 or (i + vlib.seed()) % 3 == 0]
+        cases_p = os.path.join(d, "cases_quick.ndjson")
+        vlib.write_ndjson(cases_p, cases)
+        vlib.log("quick tier executes %d of %d cases" % (len(cases), n_all))
     # conformance
     obs = os.path.join(d, "obs.ndjson")
     stride = 1 if thorough else 3
-    vlib.run_driver(b, ["confdecode", "-variants", variants_p, "-in", cases_p, "-out", obs,
-                        "-cli-stride", str(stride), "-real-stride", str(stride)], timeout=1800)
+    run_driver_split(b, variants_p, cases, obs, stride, d)
     rows = vlib.read_ndjson(obs)
     by_case = {}
     for c in cases:
@@ -361,6 +410,8 @@ def run(tier, v):
         if k not in by_case:
             raise vlib.MachineryError("driver reported a case TLC did not generate: %s" % k)
         r_["_delta"], r_["_phval"], r_["_adv"] = by_case[k]["delta"], by_case[k]["phval"], by_case[k]["adv"]
+        if r_["mvia"] not in ["decode", "cli"] + by_case[k]["vias"]:
+            raise vlib.MachineryError("driver used a channel TLC did not list for the case: %s %s" % (r_["mvia"], k))
         if r_["reg"] == "rec" and r_["via"] == "decode":
             n_rec[k] = n_rec.get(k, 0) + 1
     if len(n_rec) != len(cases) or any(x != 2 for x in n_rec.values()):
@@ -386,6 +437,10 @@ def run(tier, v):
     kinds = {}
     for c in cases:
         kinds[c["c"]["kind"]] = kinds.get(c["c"]["kind"], 0) + 1
+    channels = {}
+    for r_ in rows:
+        if r_["via"] == "cli":
+            channels[r_["mvia"]] = channels.get(r_["mvia"], 0) + 1
     outcomes = {}
     for r_ in rows:
         outcomes[r_["via"] + "/" + r_["reg"] + "/" + r_["out"]] = outcomes.get(r_["via"] + "/" + r_["reg"] + "/" + r_["out"], 0) + 1
@@ -399,8 +454,10 @@ def run(tier, v):
         "distinct_nontrivial": len({json.dumps(c["c"], sort_keys=True) for c in cases if c["c"]["kind"] != "none"}),
         "rule": "one case per (variant, base, mutation) as enumerated by CasesOf in ConfigDecode.tla, each decoded as map[string]any and "
                 "map[any]any with the recording registry; every %d-th also through the CLI reader and (non-placeholder, V1/V2) with the real "
-                "constructors; distinct_nontrivial = distinct abstract cases that carry a mutation (kind # none)" % stride,
-        "cases_by_kind": kinds, "outcomes": outcomes,
+                "constructors; channel cases (none/absent/nullval/dropcomp/nullcomp) through %s other input channel(s) of the CLI reader; quick "
+                "tier: of the value classes delivered through a placeholder all kind classes and every 3rd documented class; "
+                "distinct_nontrivial = distinct abstract cases that carry a mutation (kind # none)" % (stride, "every" if thorough else "1 (kind none: every)"),
+        "cases_by_kind": kinds, "outcomes": outcomes, "cli_runs_by_input_channel": channels,
         "pairs_of_mutations": {"pairs": conc["pairs"]["pairs"], "decodes": conc["pairs"]["decodes"]},
         "overlapping_decodes": {"goroutines": conc["g"], "passes": conc["rounds"],
                                 "sections": len([r_ for r_ in conc["rows"] if r_["kind"] == "section"]),
@@ -430,11 +487,13 @@ def replay(path, v):
         return None
     line = obj["line"]
     one = os.path.join(d, "one_case.ndjson")
-    vlib.write_ndjson(one, [{"c": line["c"], "delta": obj["delta"], "phval": obj["phval"], "adv": obj.get("adv") or {"src": "", "eol": "lf", "lines": [], "envs": [], "req": ""}}])
+    chans = [line["mvia"]] if line.get("mvia", "").startswith("cli-") else []
+    vlib.write_ndjson(one, [{"c": line["c"], "delta": obj["delta"], "phval": obj["phval"], "vias": chans,
+                             "adv": obj.get("adv") or {"src": "", "eol": "lf", "lines": [], "envs": [], "req": ""}}])
     obs = os.path.join(d, "obs1.ndjson")
-    vlib.run_driver(b, ["confdecode", "-variants", variants_p, "-in", one, "-out", obs])
+    vlib.run_driver(b, ["confdecode", "-variants", variants_p, "-in", one, "-out", obs, "-channels-per-case", "0"])
     rows = vlib.read_ndjson(obs)
     for r_ in rows:
-        print("observed now via %s/%s/%s: %s %s" % (r_["via"], r_["shape"], r_["reg"], r_["out"], r_["err"][:200]))
+        print("observed now via %s/%s/%s: %s %s" % (r_["mvia"], r_["shape"], r_["reg"], r_["out"], r_["err"][:200]))
     validate(v, obs, rows, variants, points_p, workers=1)
     return None
